@@ -870,7 +870,69 @@ func TestC06(t *testing.T) {
 	// part 5: several hits in one attack - sequence numbers of results and requests match
 	multiHit(R)
 	unbuildable(R)
+	headRequests(R)
 	R.Finish(t)
+}
+
+// headRT answers like net/http does for a HEAD request: the advertised
+// Content-Length is reported, the body is empty.
+type headRT struct {
+	status int
+	adv    int64
+	closed int
+}
+
+type countClose struct {
+	io.Reader
+	rt *headRT
+}
+
+func (c countClose) Close() error { c.rt.closed++; return nil }
+
+func (rt *headRT) RoundTrip(req *http.Request) (*http.Response, error) {
+	return &http.Response{Status: fmt.Sprintf("%d %s", rt.status, http.StatusText(rt.status)), StatusCode: rt.status, Proto: "HTTP/1.1", ProtoMajor: 1, ProtoMinor: 1,
+		Header: http.Header{"X-Method": {req.Method}, "Content-Length": {fmt.Sprint(rt.adv)}}, Body: countClose{strings.NewReader(""), rt}, ContentLength: rt.adv, Request: req}, nil
+}
+
+// headRequests: a completed exchange whose body is shorter than the announced
+// length by design (HEAD): status, headers, empty body, no error.
+func headRequests(R *ev.Run) {
+	for _, status := range []int{200, 204, 302, 404} {
+		for _, adv := range []int64{-1, 0, 1, 600} {
+			for _, mb := range []int64{-1, 0, 10, 600, 1000} {
+				rt := &headRT{status: status, adv: adv}
+				atk := vegeta.NewAttacker(vegeta.Client(&http.Client{Transport: rt}), vegeta.Workers(1), vegeta.MaxWorkers(1), vegeta.MaxBody(mb), vegeta.Redirects(vegeta.NoFollow))
+				var rs []*vegeta.Result
+				for r := range atk.Attack(vegeta.NewStaticTargeter(vegeta.Target{Method: "HEAD", URL: "http://h.example/sized"}), nHits{1}, 0, "head") {
+					rs = append(rs, r)
+				}
+				R.Eval(1)
+				R.Trans(1)
+				R.Distinct(fmt.Sprint("head", status, adv, mb))
+				R.Part("configurations", "head-request", 1)
+				ctx := map[string]any{"status": status, "advertised_content_length": adv, "max_body": mb}
+				if len(rs) != 1 {
+					R.Violation("head:results.count", ctx)
+					continue
+				}
+				r := rs[0]
+				ctx["got"] = fmt.Sprintf("code %d error %q body %d bytes bytes_in %d headers %v", r.Code, r.Error, len(r.Body), r.BytesIn, r.Headers)
+				wantErr := status < 200 || status >= 400
+				switch {
+				case int(r.Code) != status:
+					R.Violation("head:result.code", ctx)
+				case (r.Error != "") != wantErr:
+					R.Violation("head:result.error", ctx)
+				case len(r.Body) != 0 || r.BytesIn != 0:
+					R.Violation("head:result.body", ctx)
+				case r.Headers.Get("X-Method") != "HEAD":
+					R.Violation("head:result.headers", ctx)
+				case rt.closed != 1:
+					R.Violation("head:body.close-count", ctx)
+				}
+			}
+		}
+	}
 }
 
 // unbuildable: targets for which no request can be built (bad escape, bad
